@@ -304,7 +304,7 @@ pub fn case_child(args: &Args) {
         let (action, text, wait_ms): (String, Option<String>, u64) = match kind {
             0..=9 => {
                 let hash = pool[*rng.pick(&may[i])];
-                let second_pid = rng.chance(1, 9);
+                let second_pid = rng.chance(1, 6);
                 let pid = if second_pid { pids[(i + 1) % 5] } else { pids[i] };
                 let ev = if second_pid { *rng.pick(&[3u8, 3, 0, 2]) } else { *rng.pick(&[0u8, 0, 2, 2, 1, 3]) };
                 let left: Option<u64> = *rng.pick(&[None, Some(0), Some(5)]);
